@@ -51,7 +51,7 @@ pub proof fn lemma_in_section(sec: Seq<ResourceRecord>, i: int)
 BU = "broadcast use group_eq_axioms, vstd::std_specs::hash::group_hash_axioms, axiom_dn_key_model;"
 
 VALIDATE_SPEC = {
-    "props": ["C06"],
+    "props": ["C06", "C08"],
     "contract": """    requires response.answers@.len() <= 0xffff, response.authority@.len() <= 0xffff,
     ensures r is Some ==> response_ok(r->Some_0, *question, *response, current_match_count), // [C06:only_relevant_records_of_the_reply_are_used]""",
     "entry": BU,
